@@ -11,7 +11,7 @@ for f in sorted(glob.glob('/verif/seeded/*/meta.json')):
     fired=entry.get('fired',[]) if isinstance(entry,dict) else entry
     others=[c for c in fired if c!=m['property']]
     ran=entry.get('checks_run','').split() if isinstance(entry,dict) else []
-    rows.append(f"| {m['id']} | {m['property']} | {m['needs_to_manifest']} | {('yes' + (' ('+m['first_attempt'].split(';')[0]+')' if 'missed' in m.get('first_attempt','') else '')) if m['detected_by_quick_check'] else (('no, and rightly so: ' if m.get('outside_property') else '**no**: ') + m.get('first_attempt','') + ' [caught by ' + ', '.join(m.get('detected_by_other_checks',[])) + ']')} | {(', '.join(others) if others else '-') + (' (of ' + ' '.join(c for c in ran if c!=m['property']) + ')' if ran else '') if m['id'] in matrix else 'n/a'} |")
+    rows.append(f"| {m['id']}{' (not valid: breaks the pinned ui test)' if m.get('valid') is False else ''} | {m['property']} | {m['needs_to_manifest']} | {('yes' + (' ('+m['first_attempt'].split(';')[0]+')' if 'missed' in m.get('first_attempt','') else '')) if m['detected_by_quick_check'] else (('no, and rightly so: ' if m.get('outside_property') else '**no**: ') + m.get('first_attempt','') + ' [caught by ' + ', '.join(m.get('detected_by_other_checks',[])) + ']')} | {(', '.join(others) if others else '-') + (' (of ' + ' '.join(c for c in ran if c!=m['property']) + ')' if ran else '') if m['id'] in matrix else 'n/a'} |")
 table="| seeded change | property | what it needs in order to manifest | caught by the property's quick check | other checks that also fire, of those run (quarter scale, checks of properties whose code the change touches) |\n|---|---|---|---|---|\n"+"\n".join(rows)
 p='/verif/DESIGN.md'
 s=open(p).read()
